@@ -190,6 +190,9 @@ const PHRASES: &[(&str, &str)] = &[
     ("測試中文", "ㄘㄜˋ ㄕˋ ㄓㄨㄥ ㄨㄣˊ"),
 ];
 
+/// stands for a NULL pointer argument of the user-phrase calls in the call notation
+const NULL_ARG: &str = "<null>";
+
 // phrases that exist in no dictionary layer: chewing_userphrase_add takes the add branch the first time
 const FRESH: &[(&str, &str)] = &[
     ("試測", "ㄕˋ ㄘㄜˋ"),
@@ -557,6 +560,12 @@ impl<'a> Exec<'a> {
         CString::new(s).unwrap()
     }
 
+    /// a string argument of a user-phrase call; NULL_ARG stands for a NULL pointer (chewing_userphrase_lookup
+    /// documents NULL phrase as "any phrase"; the other NULL arguments are refused with 0 / -1)
+    fn opt_cstr(s: &str) -> Option<CString> {
+        if s == NULL_ARG { None } else { Some(CString::new(s).unwrap()) }
+    }
+
     fn selecting(&self) -> bool {
         unsafe { chewing_cand_CheckDone(self.ctx) == 0 }
     }
@@ -620,9 +629,11 @@ impl<'a> Exec<'a> {
     }
 
     fn user_lookup(&mut self, phrase: &str, bopo: &str) -> bool {
-        let p = Self::cstr(phrase);
-        let b = Self::cstr(bopo);
-        unsafe { chewing_userphrase_lookup(self.ctx, p.as_ptr(), b.as_ptr()) == 1 }
+        let p = Self::opt_cstr(phrase);
+        let b = Self::opt_cstr(bopo);
+        let pp = p.as_ref().map_or(std::ptr::null(), |c| c.as_ptr());
+        let bp = b.as_ref().map_or(std::ptr::null(), |c| c.as_ptr());
+        unsafe { chewing_userphrase_lookup(self.ctx, pp, bp) == 1 }
     }
 
     fn exec(&mut self, c: &Call) {
@@ -918,13 +929,18 @@ impl<'a> Exec<'a> {
                 self.out.bump("up_get");
             }
             Call::UpAdd(p, b) => {
-                let exists_user = self.user_lookup(p, b);
-                let pc = Self::cstr(p);
-                let bc = Self::cstr(b);
-                let r = unsafe { chewing_userphrase_add(ctx, pc.as_ptr(), bc.as_ptr()) };
+                let exists_user = p != NULL_ARG && b != NULL_ARG && self.user_lookup(p, b);
+                let pc = Self::opt_cstr(p);
+                let bc = Self::opt_cstr(b);
+                let r = unsafe {
+                    chewing_userphrase_add(ctx, pc.as_ref().map_or(std::ptr::null(), |c| c.as_ptr()), bc.as_ref().map_or(std::ptr::null(), |c| c.as_ptr()))
+                };
+                if (p == NULL_ARG || b == NULL_ARG) && r == 1 {
+                    self.fail("userphrase-null-argument-accepted", format!("chewing_userphrase_add({:?}, {:?}) = 1", p, b));
+                }
                 // which branch of learn_phrase: update when some layer already has the reading, else add
-                let known = exists_user || PHRASES.iter().any(|(_, rr)| rr == b) || syls(b).len() == 1;
                 if r == 1 {
+                    let known = exists_user || PHRASES.iter().any(|(_, rr)| rr == b) || syls(b).len() == 1;
                     if known {
                         self.call_generic(&[(1, true)], false);
                         self.out.bump("up_add_update");
@@ -937,9 +953,14 @@ impl<'a> Exec<'a> {
                 }
             }
             Call::UpRemove(p, b) => {
-                let pc = Self::cstr(p);
-                let bc = Self::cstr(b);
-                let r = unsafe { chewing_userphrase_remove(ctx, pc.as_ptr(), bc.as_ptr()) };
+                let pc = Self::opt_cstr(p);
+                let bc = Self::opt_cstr(b);
+                let r = unsafe {
+                    chewing_userphrase_remove(ctx, pc.as_ref().map_or(std::ptr::null(), |c| c.as_ptr()), bc.as_ref().map_or(std::ptr::null(), |c| c.as_ptr()))
+                };
+                if (p == NULL_ARG || b == NULL_ARG) && r == 1 {
+                    self.fail("userphrase-null-argument-accepted", format!("chewing_userphrase_remove({:?}, {:?}) = 1", p, b));
+                }
                 if r == 1 {
                     // whether the key sits in the pending map is not observable: assume it does (frees)
                     self.call_generic(&[(2, true)], false);
@@ -949,7 +970,14 @@ impl<'a> Exec<'a> {
                 }
             }
             Call::UpLookup(p, b) => {
-                let _ = self.user_lookup(p, b);
+                let found = self.user_lookup(p, b);
+                if b == NULL_ARG && found {
+                    self.fail("userphrase-null-argument-accepted", format!("chewing_userphrase_lookup({:?}, NULL) = 1", p));
+                }
+                // a NULL phrase asks "is there any phrase for this reading": at least as often true as the exact question
+                if p != NULL_ARG && b != NULL_ARG && found && !self.user_lookup(NULL_ARG, b) {
+                    self.fail("userphrase-lookup-wildcard", format!("({:?}, {:?}) is found but (NULL, {:?}) is not", p, b, b));
+                }
                 self.call_generic(&[], false);
             }
             Call::Get(g) => {
@@ -1301,6 +1329,33 @@ fn fixed_seqs() -> Vec<Seq> {
         }
     }
     v.push(Seq { preload: false, calls: c });
+    // NULL string arguments of the user-phrase calls, alone and in the middle of an enumeration / an open list
+    {
+        let (p0, b0) = PHRASES[0];
+        let (f0, g0) = FRESH[0];
+        let mut c = vec![
+            Call::UpLookup(NULL_ARG.into(), b0.into()),
+            Call::UpLookup(p0.into(), NULL_ARG.into()),
+            Call::UpLookup(NULL_ARG.into(), NULL_ARG.into()),
+            Call::UpAdd(f0.into(), g0.into()),
+            Call::UpLookup(f0.into(), g0.into()),
+            Call::UpLookup(NULL_ARG.into(), g0.into()),
+            Call::UpEnum,
+            Call::UpHasNext,
+            Call::UpAdd(NULL_ARG.into(), g0.into()),
+            Call::UpAdd(f0.into(), NULL_ARG.into()),
+            Call::UpRemove(NULL_ARG.into(), g0.into()),
+            Call::UpRemove(f0.into(), NULL_ARG.into()),
+            Call::UpGet(-1, -1),
+            Call::UpLookup(f0.into(), g0.into()),
+        ];
+        c.extend("hk4".bytes().map(Call::Key));
+        c.push(Call::Named("down"));
+        c.push(Call::UpLookup(NULL_ARG.into(), b0.into()));
+        c.push(Call::UpRemove(NULL_ARG.into(), NULL_ARG.into()));
+        c.push(Call::Named("esc"));
+        v.push(Seq { preload: true, calls: c });
+    }
     v
 }
 
